@@ -35,7 +35,14 @@ def w_items(ctx, rnd):
                      "static_assert(std::is_same<Back, std::chrono::duration<%s, std::ratio<%d, %d>>>::value, \"as_chrono_duration gives the same rep and (reduced) period\");" % (rep, fr.numerator, fr.denominator),
                      "static_assert(au::as_chrono_duration(au::as_quantity(D{7})).count() == 7, \"round trip count\");",
                      "constexpr D implicit_back = au::as_quantity(D{7}); static_assert(implicit_back.count() == 7 && implicit_back == D{7}, \"implicit conversion back\");",
-                     "constexpr Q implicit_in = D{7}; static_assert(implicit_in == au::as_quantity(D{7}), \"implicit conversion in\");"]
+                     "constexpr Q implicit_in = D{7}; static_assert(implicit_in == au::as_quantity(D{7}), \"implicit conversion in\");",
+                     # every value category a duration can arrive in (prvalue above): const lvalue, const
+                     # rvalue (a function returning `const D`, std::move of a const object), lvalue, xvalue
+                     "constexpr const D cd{7};",
+                     "static_assert(au::as_quantity(cd).in(typename Q::Unit{}) == 7 && au::as_quantity(static_cast<const D &&>(cd)).in(typename Q::Unit{}) == 7, \"as_quantity of a const lvalue / const rvalue\");",
+                     "static_assert(std::is_same<decltype(au::as_quantity(cd)), Q>::value && std::is_same<decltype(au::as_quantity(static_cast<const D &&>(cd))), Q>::value && std::is_same<decltype(au::as_quantity(std::declval<D &>())), Q>::value && std::is_same<decltype(au::as_quantity(std::declval<D &&>())), Q>::value, \"as_quantity type for every value category\");",
+                     "constexpr Q in_from_const_lvalue = cd; constexpr Q in_from_const_rvalue = static_cast<const D &&>(cd); static_assert(in_from_const_lvalue == implicit_in && in_from_const_rvalue == implicit_in, \"implicit conversion in, const lvalue / const rvalue\");",
+                     "static_assert(std::is_convertible<D, Q>::value && std::is_convertible<const D, Q>::value && std::is_convertible<D &, Q>::value && std::is_convertible<const D &, Q>::value && std::is_convertible<D &&, Q>::value && std::is_convertible<const D &&, Q>::value, \"accepted in every value category\");"]
             items.append(witness.Item("types:%s,%d/%d" % (rep, p[0], p[1]), "\n".join(lines), "accept", None,
                                       dict(desc="as_quantity / as_chrono_duration types and counts for %s" % D)))
     # convertibility of a duration == convertibility of its corresponding quantity, on the C06 grid
@@ -58,7 +65,8 @@ def w_items(ctx, rnd):
                 "struct T : decltype(typename CQ::Unit{} / (%s)) {}; using QT = au::Quantity<T, %s>;\n"
                 "static_assert(std::is_convertible<D, QT>::value == std::is_convertible<CQ, QT>::value, \"duration accepted exactly when its corresponding quantity is\");\n"
                 "static_assert(std::is_convertible<CQ, QT>::value == %s, \"documented predicate\");\n"
-                "static_assert(std::is_constructible<QT, D>::value == std::is_constructible<QT, CQ>::value, \"explicit construction alike\");"
+                "static_assert(std::is_constructible<QT, D>::value == std::is_constructible<QT, CQ>::value, \"explicit construction alike\");\n"
+                "static_assert(std::is_convertible<const D, QT>::value == std::is_convertible<CQ, QT>::value && std::is_convertible<const D &, QT>::value == std::is_convertible<CQ, QT>::value && std::is_convertible<D &, QT>::value == std::is_convertible<CQ, QT>::value, \"the same answer in every value category\");"
                 % (D, ra.expr, r2, b))
         items.append(witness.Item("conv:%s,%d/%d->%s@%s" % (rep, p[0], p[1], r2, ra.name), code, "accept", None,
                                   dict(desc="duration %s -> Quantity<T,%s> with factor %s: same answer as the corresponding quantity (%s)" % (D, r2, ra.name, b))))
@@ -215,7 +223,7 @@ def body(ctx):
     ctx.log("I: %d wrappers, %d equal, %d blocks not permitted by the implicit policy" % (nob[0], nob[1], notperm[0]))
     ctx.coverage.update(dict(
         evaluations=len(items) * len(configs) + nob[0], distinct_nontrivial=len(items) + nob[0],
-        rule="W item per (rep, period) for types/counts; per (duration, target rep, C06 ratio) for convertibility equality with the corresponding quantity and the documented predicate, both directions; IR: identity-dataflow wrappers per (rep, period) and mixed operator wrappers per (period pair, rep pair) compared with chrono's own operator compiled in the same TU",
+        rule="W item per (rep, period) for types/counts, in every value category a duration can arrive in (prvalue, lvalue, const lvalue, xvalue, const rvalue); per (duration, target rep, C06 ratio) for convertibility equality with the corresponding quantity and the documented predicate, both directions; IR: identity-dataflow wrappers per (rep, period) and mixed operator wrappers per (period pair, rep pair) compared with chrono's own operator compiled in the same TU",
         samples=[dict(key=items[0].key, code=items[0].code)],
         exhaustive=False, w_items=len(items), w_mismatches=nbad, ir_wrappers=nob[0], ir_discharged=nob[1],
         mixed_blocks_not_permitted=notperm[0], configs=[c.name for c in configs], engine_stats=stats))
